@@ -147,7 +147,54 @@ for _pid, _text, _note in [
      "bounded only by design: the quantities are outputs of numerical optimisers/quadrature and the named defect class is floating-point "
      "cancellation, which does not exist over the reals"),
 ]:
+    if _pid in ("C02", "C11", "C16", "C17"):
+        continue
     CLAIMED[_pid] = dict(category="exploration", text=_text, note=_note, technique=BOUNDED_TECH, ref="3/" + _pid)
+
+MATRIX_NOTE = ("dense linear algebra is handled by the abstract matrix layer pyvc.matalg: matrices are normal forms over named atoms "
+               "and the laws it rewrites with (ring laws, symmetry of declared atoms, inverse, Cholesky / triangular-solve laws, "
+               "Diag and trace laws, matrix calculus) are axioms listed in the evidence and checked numerically every run; kernels and "
+               "means are ghost objects under the contracts proved in C10/C16; floats as reals")
+CLAIMED["C02"] = dict(
+    text="Proof, for every number of data points, dimensions, query points and hyper-parameters: after set_hyperparameters the cached "
+         "factor is the Cholesky factor of K+S and alpha = (K+S)^-1 (y-m); __call__ returns m(q_t) + K_tx (K+S)^-1 (y-m) and "
+         "sqrt|K_tt - K_tx (K+S)^-1 K_xt| for every query point (loop invariant = the property) with variance <= prior variance; "
+         "build_posterior returns the same mean (also mean_only) and K_qq - K_qx (K+S)^-1 K_xq, symmetric; y_err gives diag(y_err^2), "
+         "y_cov is used as given; every kernel/mean call receives exactly its own slice of the hyper-parameters and the query point. "
+         "Bounded: random kernels incl. 2-4 kernel change points / noise kernels / means in d<=3 against independently written kernels and dense algebra.",
+    note=MATRIX_NOTE + "; independence of the training order and variance >= 0 follow from the closed form (permutation equivariance, Schur "
+         "complement): meta steps, checked in the bounded layer only; the constructor's input normalisation is bounded only",
+    ref="3/C02")
+CLAIMED["C11"] = dict(
+    text="Proof: marginal_likelihood and the value of marginal_likelihood_gradient equal -1/2 r^T C^-1 r - 1/2 logdet C (the Gaussian "
+         "log-density up to the constant); every gradient entry equals the derivative of that expression obtained mechanically by "
+         "matrix calculus; loo_predictions / loo_likelihood equal the R&W (5.10-5.12) expressions and every entry of "
+         "loo_likelihood_gradient is the symbolic derivative of the LOO sum (loop invariants per hyper-parameter). Bounded: "
+         "scores against scipy's multivariate normal and explicit refits, finite differences, optimiser selection within bounds and "
+         "no worse than the centre start.",
+    note=MATRIX_NOTE + "; the identity of (5.12) with an actual refit is the block-inverse lemma (assumed, refit-compared in the bounded "
+         "layer); automatic hyper-parameter selection (multi-start L-BFGS / differential evolution) is bounded only",
+    ref="3/C11")
+CLAIMED["C16"] = dict(
+    text="Proof: gradient() returns for every query point J alpha + dm/dq and Diag(R) - J (K+S)^-1 J^T with J = A o K_qx, symmetric; "
+         "spatial_derivatives() returns J alpha + dm/dq and -2 J (K+S)^-1 K_xq; and at kernel level (d in {1,2,3}) A[c,j] k(q,x_j) is "
+         "the symbolic derivative of the real kernel evaluation with respect to q_c, R is the mixed second derivative of k(q,q') at "
+         "q'=q (zero off the diagonal), k(q,q) does not depend on q, and each mean's spatial_gradient is the symbolic derivative of its "
+         "own evaluation. Together: the reported quantities are the derivatives of the predictive mean / variance and the prior "
+         "gradient covariance minus the explained part. Bounded: finite differences of GpRegressor.__call__, eigenvalues, batched vs single.",
+    note=MATRIX_NOTE + "; positive semi-definiteness of the gradient covariance is bounded only; squeeze() of singleton axes (one point or one "
+         "dimension) is bounded only; only SquaredExponential implements gradient_terms",
+    ref="3/C16")
+CLAIMED["C17"] = dict(
+    text="Proof for every model-matrix shape: calculate_posterior's covariance solves (I + K A^T S^-1 A) Sigma = K (i.e. Sigma = "
+         "(K^-1 + A^T S^-1 A)^-1) and its mean is m + Sigma A^T S^-1 (y - A m); calculate_posterior_mean returns the same mean; "
+         "marginal_likelihood (and the value variant) is -1/2 r^T J^-1 r - 1/2 logdet J with J = A K A^T + S, r = y - A m; every "
+         "gradient entry is the matrix-calculus derivative of that expression; the constructor stores diag(y_err^2), its inverse, the "
+         "identity and the [mean, covariance] hyper-parameter layout. Bounded: tall/wide/rank-deficient models against dense "
+         "conjugate formulas and finite differences.",
+    note=MATRIX_NOTE + "; equivalence of the posterior equation with the textbook Woodbury form, symmetry/PSD and 'no larger than the prior' "
+         "are bounded only",
+    ref="3/C17")
 
 PENDING_REASON = "contracts for this property are not built yet in this revision (see DESIGN.md section 7); not claimed"
 
